@@ -56,6 +56,11 @@ fn one<C: Cs>(ctx: &Ctx, st: &Setup<C>, other: Option<&Setup<C>>, r: &mut impl r
         let mut rv = revealed.clone();
         rv[k].value = Integer::from(&rv[k].value ^ 1u32);
         reject(&format!("revealed-attribute-changed#{k}"), &|| verify(&proof, &cpk, st.pk(), &bases, &rv, &u, n));
+        for (nm, delta) in [("+N", st.pk().N.clone()), ("+2N", Integer::from(&st.pk().N * 2u32)), ("-N", Integer::from(-&st.pk().N)), ("+2^lm", Integer::from(1) << C::lm), ("+N^2", Integer::from(&st.pk().N * &st.pk().N))] {
+            let mut rv = revealed.clone();
+            rv[k].value = Integer::from(&rv[k].value + &delta);
+            reject(&format!("revealed-attribute-shifted{nm}#{k}"), &|| verify(&proof, &cpk, st.pk(), &bases, &rv, &u, n));
+        }
         for j2 in (k + 1..revealed.len()).take(4) {
             if revealed[k].value != revealed[j2].value {
                 let mut rv = revealed.clone();
@@ -148,7 +153,7 @@ fn one<C: Cs>(ctx: &Ctx, st: &Setup<C>, other: Option<&Setup<C>>, r: &mut impl r
     }
     // field-wise edits of the serialized proof
     if tamper {
-        let variants = tampered_variants(&j, r, ctx.t(70, 500));
+        let variants = tampered_variants_mod(&j, r, ctx.t(70, 500), Some(&st.pk().N));
         ctx.count("proof_leaves", leaves(&j).len() as u64);
         ctx.count("proof_tampered_variants", variants.len() as u64);
         par_for_each(&variants, 8, |(kind, path, j2): &(String, String, Value)| {
